@@ -279,7 +279,9 @@ func (x *gen) next(phase string) string {
 		{6, func() string { return fmt.Sprintf("tick %d", anyAlive()) }},
 		{20, func() string { return fmt.Sprintf("deliver %d", k()) }},
 		{14, func() string { return fmt.Sprintf("process %d", anyAlive()) }},
-		{8, func() string { return fmt.Sprintf("propose %d", lead()) }},
+		{6, func() string { return fmt.Sprintf("propose %d", lead()) }},
+		{3, func() string { return fmt.Sprintf("propose %d %d", lead(), []int{1, 7, 25, 60}[g.Intn(4)]) }},
+		{2, func() string { return fmt.Sprintf("proposebatch %d %d", lead(), 2+g.Intn(3)) }},
 		{3, func() string { return fmt.Sprintf("flush %d", 1+g.Intn(3)) }},
 		{2, func() string { return fmt.Sprintf("reportsnap %d %d", k(), g.Intn(4)) }},
 	}
@@ -315,6 +317,10 @@ func (x *gen) next(phase string) string {
 	case "confchange":
 		return x.choose(append(common,
 			wop{10, func() string { return fmt.Sprintf("proposecc %d %s", lead(), x.confChangeSpec()) }},
+			wop{4, func() string {
+				n := 2 + g.Intn(3)
+				return fmt.Sprintf("proposebatch %d %d %d %s", lead(), n, g.Intn(n), x.confChangeSpec())
+			}},
 			wop{3, func() string {
 				for id := uint64(1); id <= 6; id++ {
 					if x.c.nodes[id] == nil {
@@ -387,8 +393,17 @@ func runRandom(s SchedCfg, nops int, tr *traceWriter) *Cluster {
 			c.exec("unblock")
 		}
 	}
-	c.mon.finish()
+	c.finishMonitors()
 	return c
+}
+
+func (c *Cluster) finishMonitors() {
+	defer func() {
+		if r := recover(); r != nil {
+			c.mon.report("C14", "", "panic during the end-of-run checks: %s", sanitize(fmt.Sprint(r)))
+		}
+	}()
+	c.mon.finish()
 }
 
 // runOps executes an explicit schedule.
@@ -399,6 +414,6 @@ func runOps(s SchedCfg, ops []string, tr *traceWriter) *Cluster {
 			c.exec(op)
 		}
 	}
-	c.mon.finish()
+	c.finishMonitors()
 	return c
 }
